@@ -549,6 +549,16 @@ func (f *sfile) ReadAt(p []byte, offset int64) (int, error) {
 			n = 0
 		}
 	}
+	if b.fillByOff && b.fullReads && b.fs == nil {
+		// the fast path of the content checks under concurrency: the caller's buffer is filled at once,
+		// as a real file system does, with nothing slow in between
+		b.mu.Unlock()
+		for i := range p {
+			p[i] = byte(offset)
+		}
+		b.okTape(nil, [][]byte{nil}, nil)
+		return len(p), nil
+	}
 	data := b.r.bytesN(n)
 	eof := b.r.chance(1, 6)
 	if b.fillByOff {
